@@ -17,7 +17,7 @@ import warnings
 
 from . import model, scenario as scen
 from .scheduler import Scheduler, pkey
-from .world import PathError, World, path_arg_ids, reference, reference_alt_form
+from .world import PathError, World, held_changes, path_arg_ids, reference, reference_alt_form
 
 RUN_TIMEOUT_S = 40
 WARNING_NAMES = ("RuntimeWarning", "UserWarning", "DeprecationWarning", "FutureWarning", "Warning")
@@ -121,6 +121,7 @@ def history_child(sc, surface, ops=None):
     return {
         "ops": ops,
         "events": events,
+        "held_changed": held_changes(world),
         "state_hashes": state_hashes,
         "final_arg_digests": world.arg_digest,
         "pristine_arg_digests": world.pristine_digest,
@@ -232,6 +233,20 @@ def compare(sc, hist, orc):
         seen_spec.setdefault(key, (ev["d"], ev["i"], ev["s"]))
         if v is not None:
             violations.append(v)
+    for hc in hist.get("held_changed", []):
+        violations.append(
+            {
+                "invariant": "I1",
+                "step": hc["i"],
+                "sid": hc["sid"],
+                "path": hc["path"],
+                "observed": hc["now"],
+                "expected": hc["then"],
+                "kind": "value-vs-value",
+                "family": path_family(hc["path"]),
+                "op": "HELD (the array returned by this read was changed in place by a later step)",
+            }
+        )
     for key, (shift, d2, s2, x2) in sorted(orc.get("alt", {}).items()):
         sid, pk = key.split("|", 1)
         violations.append(
@@ -271,6 +286,7 @@ def log_digest(hist, orc):
     h = hashlib.sha1()
     for ev in hist["events"]:
         h.update(json.dumps([ev["op"], ev.get("d"), ev.get("chg")], sort_keys=True).encode())
+    h.update(json.dumps(hist.get("held_changed", []), sort_keys=True).encode())
     h.update(json.dumps(orc["ref"], sort_keys=True).encode())
     ops = hashlib.sha1(json.dumps(hist["ops"], sort_keys=True).encode()).hexdigest()
     return h.hexdigest(), ops
